@@ -124,7 +124,7 @@ P("C12",
           "mode=layout": 50, "mode=remote": 50, "phase=reopened": 10, "manifest-fetched": 20, "listed>0": 20,
           "file=oci-policy": 50, "file=blob-policy": 50, "file=config": 50, "file=signingkeys": 50, "file=crl-cache": 50, "file=keypair": 20, "file=truststore": 20,
           "parsed:oci-policy": 10, "parsed:blob-policy": 10, "parsed:signingkeys": 10, "parsed:config": 10, "parsed:crl-cache": 5, "policy-accepted": 10,
-          "plugin=cli": 10, "plugin=cli-signer": 5, "plugin=cli-verifier": 5, "plugin=inproc": 100, "fuzz-seed": 50, "nil-args": 20, "revocation-wiring-partial+tsa-store": 100, "invalid-policy-document-next-to-a-valid-one": 50, "plugin-floods-output": 2},
+          "plugin=cli": 10, "plugin=cli-signer": 5, "plugin=cli-verifier": 5, "plugin=inproc": 100, "fuzz-seed": 50, "nil-args": 20, "revocation-wiring-partial+tsa-store": 100, "invalid-policy-document-next-to-a-valid-one": 50, "plugin-floods-output": 2, "plugin-leaves-descendant-holding-output": 2},
   fuzz=[{"name": "FuzzC12_Envelope", "seconds": 90}, {"name": "FuzzC12_PolicyJSON", "seconds": 60}, {"name": "FuzzC12_ConfigJSON", "seconds": 60}, {"name": "FuzzC12_CacheEntry", "seconds": 60}])
 
 P("C13",
